@@ -108,7 +108,12 @@ def handler : Driver.Handler := fun c i => do
   let special := rows.any (·.any (fun c => match c with
     | .str s => s.any (fun ch => ch == ',' || ch == '"' || ch == '\n' || ch == '\r' || ch == '\\' || ch.toNat < 0x20)
     | _ => false))
-  let tags := [fmt] ++ (if noBatches then ["no-batches"] else []) ++ (if rows.isEmpty then ["no-rows"] else [])
+  -- a single string (cell or column name) that needs CSV quoting / JSON escaping AND contains a non-ASCII character
+  let needs (ch : Char) : Bool :=
+    if isCsv then ch == ',' || ch == '"' || ch == '\n' || ch == '\r' else ch == '"' || ch == '\\' || ch.toNat < 0x20
+  let mixed (t : List Char) : Bool := t.any needs && t.any (fun ch => ch.toNat > 127)
+  let escUtf8 := names.any mixed || rows.any (·.any (fun c => match c with | .str t => mixed t | _ => false))
+  let tags := [fmt] ++ (if escUtf8 then ["esc+utf8", s!"{fmt}:esc+utf8"] else []) ++ (if noBatches then ["no-batches"] else []) ++ (if rows.isEmpty then ["no-rows"] else [])
     ++ (if hasNull then ["null"] else []) ++ (if special then ["special-chars"] else []) ++ (if batches.length > 1 then ["multi-batch"] else [])
     ++ (match attr with | some a => [s!"attr:{a}"] | none => [])
   pure { model := jChars m, k := k, oracle := o, nt := !rows.isEmpty, tags := tags, attr := attr }
